@@ -143,6 +143,13 @@ def mutate(rng, base, family):
         n = inp["n"]
         if n < 2:
             return None
+        if el and spec.get("bus_ties") and rng.random() < 0.3:
+            # the breaker status table is a status series too
+            bad = int(rng.choice([n - 1, n + 1])) if n > 2 else n + 1
+            inp["breaker"] = [(row + [row[-1]])[:bad] for row in inp["breaker"]]
+            mut.update(component="bus-tie breakers", field="breaker", bad_length=bad)
+            case["mutation"] = mut
+            return case
         store = R.elec_inputs(case)["comp"] if el else R.mech_inputs(case)["comp"]
         names = [k for k, v in store.items() if any(isinstance(x, list) and len(x) == n for x in v.values())
                  and not k.startswith("pti")]          # the shared PTI/PTO's series are set from the mechanical side
